@@ -12,6 +12,7 @@ pub fn text() -> BoxedStrategy<String> {
             "", "=", "a=b=c", " lead", "trail ", "\tTab", "é", "💖", "x y z", "devel pkgtools", "2019-08-12 15:58:02 +0100",
             "x86_64", "Darwin", "18.7.0", "testpkg-1.0", "pkgtools/testpkg", "20091115", "A test description",
             "VAR=value", "==", "\u{2028}", "\u{85}x", "a\u{0}b", "日本語", "ß=ü", "-1.0", "test-pkg-", "a-b-1.0nb2",
+            "\u{feff}bom", "x\u{feff}", "back\\nslash \\t \\\\ \\", "C:\\new\\dir", "%s\\n", "tab\there", "\\", "\"quoted\"", "'", "$(x)", "`y`",
         ]).prop_map(String::from),
         2 => "[ -~]{0,24}",
         1 => "[ -~]{100,700}",
@@ -25,6 +26,7 @@ pub fn text() -> BoxedStrategy<String> {
 pub fn stream_text() -> BoxedStrategy<String> {
     prop::sample::select(vec![
         "", "a", "é", "x=é", "é=x", "💖", "日本", "a b", "=", "ßa", "aß", "1.0", "€uro", "x€", "\u{7ff}\u{800}\u{ffff}\u{10000}",
+        "\u{feff}", "\u{feff}x", "x\u{feff}y", "\\n",
         "pkg-1.0", "cat/pkg",
     ])
     .prop_map(String::from)
@@ -67,6 +69,23 @@ pub fn assignment(txt: fn() -> BoxedStrategy<String>) -> BoxedStrategy<Assignmen
             for (i, v) in vals.into_iter().enumerate() {
                 if let Some(v) = v {
                     a.insert(i, v);
+                }
+            }
+            // fields of real entries are correlated: FILE_NAME is usually PKGNAME + ".tgz",
+            // PKGPATH often ends in the package base
+            let pkgname = match a.get(&15) {
+                Some(Val::S(s)) => s.clone(),
+                _ => String::new(),
+            };
+            if let Some(Val::S(f)) = a.get(&7).cloned() {
+                match f.len() % 4 {
+                    0 => {
+                        a.insert(7, Val::S(format!("{}.tgz", pkgname)));
+                    }
+                    1 => {
+                        a.insert(7, Val::S(pkgname.clone()));
+                    }
+                    _ => {}
                 }
             }
             a
